@@ -125,8 +125,12 @@ class C04(Property):
         return d, dest
 
     def do_save(self, fu, dest, case, spy):
-        kw = dict(overwrite=bool(case['ow']), overwrite_part=bool(case['owp']), rm_part_on_exc=bool(case['rm']),
-                  text_mode=bool(case['txt']))
+        # documented defaults are exercised by omitting the keyword
+        kw = {}
+        for name, val, default in (('overwrite', case['ow'], 1), ('overwrite_part', case['owp'], 0),
+                                   ('rm_part_on_exc', case['rm'], 1), ('text_mode', case['txt'], 0)):
+            if val != default:
+                kw[name] = bool(val)
         if case['perms'] is not None:
             kw['file_perms'] = case['perms']
         if case.get('buffering', -1) != -1 and not (case['txt'] and case['buffering'] == 0):
